@@ -302,8 +302,14 @@ func (s *State) floatBinop(op token.Token, x, y Value, t types.Type) Value {
 		return r
 	}
 	w, _ := isFloatType(t)
+	switch op {
+	case token.ADD, token.SUB, token.MUL, token.QUO:
+		// arithmetic on a symbolic float: class split + one finite representative (stated under-approximation)
+		cx, cy := s.floatConc(x), s.floatConc(y)
+		return s.floatBinop(op, cx, cy, t)
+	}
 	if w != 64 {
-		s.unsupported("symbolic float32 comparison")
+		x, y = s.f32to64(x), s.f32to64(y)
 	}
 	lift := func(v Value) *Term {
 		if f, ok := v.(float64); ok {
@@ -718,4 +724,19 @@ func (s *State) convert(w *Worker, x Value, from, to types.Type) Value {
 	}
 	s.unsupported("convert %s -> %s (%T)", from, to, x)
 	return nil
+}
+
+// floatConc concretises a symbolic float (bit pattern) by class split; concrete floats pass through.
+func (s *State) floatConc(v Value) Value {
+	if t, ok := v.(*Term); ok {
+		return s.floatClassSplit(s.curWorker, t)
+	}
+	return v
+}
+
+func (s *State) f32to64(v Value) Value {
+	if t, ok := v.(*Term); ok && t.Sort == 32 {
+		return mkUn(OF32to64, 64, t)
+	}
+	return v
 }
